@@ -215,13 +215,105 @@ func skipSort(s string, i int) int {
 }
 
 // integer helpers (Int sort)
-func add(a, b Term) Term { return app(SInt, "+", a, b) }
-func sub(a, b Term) Term { return app(SInt, "-", a, b) }
-func mul(a, b Term) Term { return app(SInt, "*", a, b) }
-func le(a, b Term) Term  { return app(SBool, "<=", a, b) }
-func lt(a, b Term) Term  { return app(SBool, "<", a, b) }
-func ge(a, b Term) Term  { return app(SBool, ">=", a, b) }
-func gt(a, b Term) Term  { return app(SBool, ">", a, b) }
+func litOf(t Term) (*big.Int, bool) {
+	if t.Sort != SInt {
+		return nil, false
+	}
+	s := t.S
+	neg := false
+	if len(s) > 4 && s[0] == '(' && s[1] == '-' && s[2] == ' ' && s[len(s)-1] == ')' {
+		neg = true
+		s = s[3 : len(s)-1]
+	}
+	for _, c := range s {
+		if c < '0' || c > '9' {
+			return nil, false
+		}
+	}
+	if s == "" {
+		return nil, false
+	}
+	v, ok := new(big.Int).SetString(s, 10)
+	if !ok {
+		return nil, false
+	}
+	if neg {
+		v.Neg(v)
+	}
+	return v, true
+}
+
+func add(a, b Term) Term {
+	x, xo := litOf(a)
+	y, yo := litOf(b)
+	switch {
+	case xo && yo:
+		return bigLit(new(big.Int).Add(x, y))
+	case xo && x.Sign() == 0:
+		return b
+	case yo && y.Sign() == 0:
+		return a
+	}
+	return app(SInt, "+", a, b)
+}
+
+func sub(a, b Term) Term {
+	x, xo := litOf(a)
+	y, yo := litOf(b)
+	switch {
+	case xo && yo:
+		return bigLit(new(big.Int).Sub(x, y))
+	case yo && y.Sign() == 0:
+		return a
+	}
+	return app(SInt, "-", a, b)
+}
+
+func mul(a, b Term) Term {
+	x, xo := litOf(a)
+	y, yo := litOf(b)
+	if xo && yo {
+		return bigLit(new(big.Int).Mul(x, y))
+	}
+	return app(SInt, "*", a, b)
+}
+
+func cmpLit(a, b Term, f func(int) bool) (Term, bool) {
+	x, xo := litOf(a)
+	y, yo := litOf(b)
+	if xo && yo {
+		return boolLit(f(x.Cmp(y))), true
+	}
+	return Term{}, false
+}
+
+func le(a, b Term) Term {
+	if t, ok := cmpLit(a, b, func(c int) bool { return c <= 0 }); ok {
+		return t
+	}
+	return app(SBool, "<=", a, b)
+}
+
+func lt(a, b Term) Term {
+	if t, ok := cmpLit(a, b, func(c int) bool { return c < 0 }); ok {
+		return t
+	}
+	return app(SBool, "<", a, b)
+}
+
+func ge(a, b Term) Term {
+	if t, ok := cmpLit(a, b, func(c int) bool { return c >= 0 }); ok {
+		return t
+	}
+	return app(SBool, ">=", a, b)
+}
+
+func gt(a, b Term) Term {
+	if t, ok := cmpLit(a, b, func(c int) bool { return c > 0 }); ok {
+		return t
+	}
+	return app(SBool, ">", a, b)
+}
 
 // tdiv is Go's truncated division on mathematical integers (b != 0).
 func tdiv(a, b Term) Term {
